@@ -263,7 +263,7 @@ def _enclosing_fn(text, line):
         return None
     lines = text.split("\n")
     for k in range(min(line, len(lines)) - 1, -1, -1):
-        m = re.match(r"\s*(?:pub\s+)?(?:open\s+|closed\s+|broadcast\s+)*(?:proof\s+|exec\s+|spec\s+)?fn\s+(\w+)", lines[k])
+        m = re.match(r"\s*(?:pub(?:\s*\([^)]*\))?\s+)?(?:open\s+|closed\s+|broadcast\s+)*(?:proof\s+|exec\s+|spec\s+)?fn\s+(\w+)", lines[k])
         if m:
             return m.group(1)
     return None
